@@ -350,6 +350,9 @@ def screen(payload):
         return ('suspicious',)
 
 
+SYM_ATOMS = 40   # a case is evaluated symbolically in all its real arguments when they have at most this many entries in total
+
+
 def v_stream(c, ncases, maxdepth, npy=0, struct={}, prefix='V', late=False, pool=None):
     """late: the stream has nothing for Lean (ncases = 0) and does all its work (real extraction, real evaluation, exact recomputation
     oracle) after it has been resumed, i.e. while the Lean driver is busy with the requests of the other streams"""
@@ -432,6 +435,10 @@ def v_stream(c, ncases, maxdepth, npy=0, struct={}, prefix='V', late=False, pool
             roots, spec = roots_of(mode, ext, e)
             nroots = len(roots)
             float_args = {k: v for k, v in args.items() if numpy.asarray(v).dtype.kind == 'f'}
+            if sum(numpy.asarray(v).size for v in float_args.values()) > SYM_ATOMS:
+                # polynomials in that many unknowns can take the (interpreted) Lean evaluator many minutes: the second request of this
+                # case is concrete, too (decided exactly at the sample point only; counted as such)
+                float_args = {}; out[mode + ':symbolic-request-skipped(more than %d real unknowns)' % SYM_ATOMS] += 1
             try:
                 r1, s1 = ser.request(roots, args, cmp=[(0, nroots-1)])
                 r2, _ = ser.request(roots, {k: v for k, v in args.items() if k not in float_args}, symbolic={k: numpy.asarray(v).shape for k, v in float_args.items()}, cmp=[(0, nroots-1)])
@@ -440,7 +447,7 @@ def v_stream(c, ncases, maxdepth, npy=0, struct={}, prefix='V', late=False, pool
             for cls in s1.classes: hits['sparse-tree:' + cls] += 1
             j1 = json.loads(r1); j1['c05'] = dict(spec, results=True)
             j2 = json.loads(r2); j2['c05'] = dict(spec, results=False)
-            cases.append(dict(e=e, args=args, tag=tag, mode=mode, ext=ext, kr=kr, parts=parts, tol=tol, dense0=v0))
+            cases.append(dict(e=e, args=args, tag=tag, mode=mode, ext=ext, kr=kr, parts=parts, tol=tol, dense0=v0, sym=bool(float_args) or not any(numpy.asarray(v).dtype.kind == 'f' for v in args.values())))
             reqs += [json.dumps(j1, separators=(',', ':')), json.dumps(j2, separators=(',', ':'))]
     c.log('%s: %d requests for the Lean evaluator, %d cases for the real-evaluation oracle only' % (prefix, len(reqs), len(pyonly)))
     ans = []
@@ -503,7 +510,7 @@ def v_stream(c, ncases, maxdepth, npy=0, struct={}, prefix='V', late=False, pool
                 else:
                     out['spec-eval:' + m] += 1
         # ---- (3) Lean verdicts
-        if a2['verdict'] == 'ok':
+        if a2['verdict'] == 'ok' and case.get('sym', True):
             nsym += 1; out[mode + ':verdict:proved-symbolically'] += 1
         elif a1['verdict'] == 'ok':
             nconc += 1; out[mode + ':verdict:exact-at-sample-point'] += 1
